@@ -213,10 +213,13 @@ end
 
 /-! ## evaluation lemmas -/
 
+theorem convAt_single (r : Boxed) (out : Ty) : I2V.convAt K [out] false 0 r = toValue K r out := by
+  simp [I2V.convAt, I2V.typeAt]
+
 theorem I2V_single (r : Boxed) (out : Ty) :
     I2V K [r] [out] false = (match toValue K r out with | .ok v => .ok [v] | .error e => .error e) := by
-  simp only [I2V, I2V.go]
-  cases h : toValue K r out <;> simp [h]
+  simp only [I2V, I2V.go, convAt_single]
+  cases h : toValue K r out <;> simp
 
 theorem deliver_single (v : RV) (out : Ty) :
     deliver [v] [out] = (deliver1 v out).map (fun a => [a]) := by
@@ -252,60 +255,130 @@ theorem go_length (K : KindLists) (types : List Ty) (b : Bool) : ∀ (objs : Lis
     simp only [I2V.go] at h
     split at h
     · simp at h
-    · simp at h
     · split at h
       · simp at h
-      · split at h
-        · simp at h
-        · rename_i ws hws
-          simp only [Except.ok.injEq] at h
-          subst h
-          simp [ih _ _ hws]
+      · rename_i ws hws
+        simp only [Except.ok.injEq] at h
+        subst h
+        simp [ih _ _ hws]
 
-theorem go_pointwise (K : KindLists) (types : List Ty) : ∀ (objs : List Boxed) (i : Nat) (vs : List RV),
-    i + objs.length = types.length →
-    I2V.go K types false i objs = .ok vs →
-    ∀ j, j < objs.length → ∃ t a v, types[i + j]? = some t ∧ objs[j]? = some a ∧ vs[j]? = some v ∧ toValue K a t = .ok v := by
+/-- success: every position converted, in order -/
+theorem go_ok_pointwise (K : KindLists) (types : List Ty) (b : Bool) : ∀ (objs : List Boxed) (i : Nat) (vs : List RV),
+    I2V.go K types b i objs = .ok vs →
+    ∀ j, j < objs.length → ∃ a v, objs[j]? = some a ∧ vs[j]? = some v ∧ I2V.convAt K types b (i + j) a = .ok v := by
   intro objs
   induction objs with
-  | nil => intro i vs _ _ j hj; simp at hj
+  | nil => intro i vs _ j hj; simp at hj
   | cons a rest ih =>
-    intro i vs hlen h j hj
-    have hi : i < types.length := by simp at hlen; omega
+    intro i vs h j hj
     simp only [I2V.go] at h
-    by_cases hc : i + 1 < types.length
-    · simp only [hc, if_true, List.getElem?_eq_getElem hi, Option.map_some] at h
+    split at h
+    · simp at h
+    · rename_i w hw
       split at h
       · simp at h
-      · rename_i w hw
-        split at h
-        · simp at h
-        · rename_i ws hws
-          simp only [Except.ok.injEq] at h
-          subst h
-          cases j with
-          | zero => exact ⟨types[i], a, w, by simp [List.getElem?_eq_getElem hi], by simp, by simp, hw⟩
-          | succ k =>
-            have hk : k < rest.length := by simp at hj; omega
-            obtain ⟨t, a', v, h1, h2, h3, h4⟩ := ih (i + 1) ws (by simp at hlen; omega) hws k hk
-            exact ⟨t, a', v, by rw [← h1]; congr 1; omega, by simpa using h2, by simpa using h3, h4⟩
-    · have hl : types.getLast? = some types[i] := by
-        have : types.length - 1 = i := by omega
-        rw [List.getLast?_eq_getElem?, this, List.getElem?_eq_getElem hi]
-      simp only [hc, if_false, hl, Option.map_some, Bool.false_eq_true] at h
+      · rename_i ws hws
+        simp only [Except.ok.injEq] at h
+        subst h
+        cases j with
+        | zero => exact ⟨a, w, by simp, by simp, by simpa using hw⟩
+        | succ k =>
+          have hk : k < rest.length := by simp at hj; omega
+          obtain ⟨a', v, h2, h3, h4⟩ := ih (i + 1) ws hws k hk
+          refine ⟨a', v, by simpa using h2, by simpa using h3, ?_⟩
+          have : i + (k + 1) = i + 1 + k := by omega
+          rw [this]; exact h4
+
+/-- failure: the error is that of the first failing position -/
+theorem go_error_first (K : KindLists) (types : List Ty) (b : Bool) : ∀ (objs : List Boxed) (i : Nat) (e : Fail),
+    I2V.go K types b i objs = .error e →
+    ∃ j a, objs[j]? = some a ∧ I2V.convAt K types b (i + j) a = .error e ∧
+      ∀ k, k < j → ∃ c v, objs[k]? = some c ∧ I2V.convAt K types b (i + k) c = .ok v := by
+  intro objs
+  induction objs with
+  | nil => intro i e h; simp [I2V.go] at h
+  | cons a rest ih =>
+    intro i e h
+    simp only [I2V.go] at h
+    split at h
+    · rename_i e' he'
+      simp only [Except.error.injEq] at h
+      subst h
+      exact ⟨0, a, by simp, by simpa using he', by intro k hk; omega⟩
+    · rename_i w hw
       split at h
+      · rename_i e' he'
+        simp only [Except.error.injEq] at h
+        subst h
+        obtain ⟨j, a', h1, h2, h3⟩ := ih (i + 1) _ he'
+        refine ⟨j + 1, a', by simpa using h1, ?_, ?_⟩
+        · have : i + (j + 1) = i + 1 + j := by omega
+          rw [this]; exact h2
+        · intro k hk
+          cases k with
+          | zero => exact ⟨a, w, by simp, by simpa using hw⟩
+          | succ k' =>
+            obtain ⟨c, v, hc1, hc2⟩ := h3 k' (by omega)
+            refine ⟨c, v, by simpa using hc1, ?_⟩
+            have : i + (k' + 1) = i + 1 + k' := by omega
+            rw [this]; exact hc2
       · simp at h
-      · rename_i w hw
-        split at h
-        · simp at h
-        · rename_i ws hws
-          simp only [Except.ok.injEq] at h
-          subst h
-          cases j with
-          | zero => exact ⟨types[i], a, w, by simp [List.getElem?_eq_getElem hi], by simp, by simp, hw⟩
-          | succ k =>
-            have hk : k < rest.length := by simp at hj; omega
-            obtain ⟨t, a', v, h1, h2, h3, h4⟩ := ih (i + 1) ws (by simp at hlen; omega) hws k hk
-            exact ⟨t, a', v, by rw [← h1]; congr 1; omega, by simpa using h2, by simpa using h3, h4⟩
+
+/-- conversely, a first failing position makes the whole conversion fail with its error -/
+theorem go_error_of_first (K : KindLists) (types : List Ty) (b : Bool) : ∀ (objs : List Boxed) (i : Nat) (e : Fail) (j : Nat) (a : Boxed),
+    objs[j]? = some a → I2V.convAt K types b (i + j) a = .error e →
+    (∀ k, k < j → ∃ c v, objs[k]? = some c ∧ I2V.convAt K types b (i + k) c = .ok v) →
+    I2V.go K types b i objs = .error e := by
+  intro objs
+  induction objs with
+  | nil => intro i e j a h; simp at h
+  | cons a0 rest ih =>
+    intro i e j a h1 h2 h3
+    cases j with
+    | zero =>
+      simp only [List.getElem?_cons_zero, Option.some.injEq] at h1
+      subst h1
+      simp only [Nat.add_zero] at h2
+      simp [I2V.go, h2]
+    | succ j' =>
+      obtain ⟨c, v, hc1, hc2⟩ := h3 0 (by omega)
+      simp only [List.getElem?_cons_zero, Option.some.injEq] at hc1
+      subst hc1
+      simp only [Nat.add_zero] at hc2
+      have hrest : I2V.go K types b (i + 1) rest = .error e := by
+        apply ih (i + 1) e j' a (by simpa using h1)
+        · have : i + 1 + j' = i + (j' + 1) := by omega
+          rw [this]; exact h2
+        · intro k hk
+          obtain ⟨c', v', hc1', hc2'⟩ := h3 (k + 1) (by omega)
+          refine ⟨c', v', by simpa using hc1', ?_⟩
+          have : i + 1 + k = i + (k + 1) := by omega
+          rw [this]; exact hc2'
+      simp [I2V.go, hc2, hrest]
+
+/-- the type used at position j of a non-variadic list of matching length is `types[j]` -/
+theorem typeAt_nonvariadic (types : List Ty) (j : Nat) (hj : j < types.length) :
+    I2V.typeAt types false j = some (.ok types[j]) := by
+  simp only [I2V.typeAt]
+  split
+  · simp [List.getElem?_eq_getElem hj]
+  · have : types.length - 1 = j := by omega
+    simp [List.getLast?_eq_getElem?, this, List.getElem?_eq_getElem hj]
+
+/-- variadic: the fixed parameters convert at their own types … -/
+theorem typeAt_variadic_fixed (pre : List Ty) (last : Ty) (j : Nat) (hj : j < pre.length) :
+    I2V.typeAt (pre ++ [last]) true j = some (.ok pre[j]) := by
+  have h1 : j + 1 < (pre ++ [last]).length := by simp; omega
+  simp only [I2V.typeAt]
+  rw [if_pos h1]
+  simp [List.getElem?_append_left hj, List.getElem?_eq_getElem hj]
+
+/-- … and every further value at the element type of the last (slice) type -/
+theorem typeAt_variadic_tail (pre : List Ty) (last : Ty) (j : Nat) (hj : pre.length ≤ j) :
+    I2V.typeAt (pre ++ [last]) true j = some last.elem? := by
+  have h1 : ¬ j + 1 < (pre ++ [last]).length := by simp; omega
+  simp only [I2V.typeAt]
+  rw [if_neg h1]
+  simp
 
 end C09L
